@@ -73,7 +73,7 @@ def run(tape):
             if rid == "r2":
                 world.probe("two-runs")
             op = tape.choice(["h_update", "h_query", "h_delete", "ev_append", "ev_query", "ev_subscribe", "tick_append", "tick_get",
-                              "st_set", "st_get", "st_edit", "st_set_state", "st_clear", "st_fresh", "st_seed", "st_seed_mem"], "op")
+                              "st_set", "st_get", "st_edit", "st_set_state", "st_clear", "st_fresh", "st_seed", "st_seed_mem", "tick_append_bad", "st_typed_after_untyped"], "op")
             is_state = op.startswith("st_")
             if not is_state and last_state_op[0]:
                 world.probe("state-op-then-store-op")
@@ -113,6 +113,25 @@ def run(tape):
                 await both(f"subscribe_events({rid},{after})x{want}", sub)
             elif op == "tick_append":
                 await both(f"append_tick({rid})", lambda b, st: st.append_tick(rid, {"type": "x", "i": i}))
+            elif op == "tick_append_bad":
+                # a payload that cannot be serialised: the call fails (in both modes alike); what matters is what the store does afterwards
+                world.probe("append-with-unserialisable-payload")
+                await both(f"append_tick({rid}, unserialisable)", lambda b, st: st.append_tick(rid, {"type": "x", "bad": {1, 2}}))
+            elif op == "st_typed_after_untyped":
+                # the server takes untyped handles on a run (context lookup, legacy seeding) and typed ones (step invocations)
+                from worlds.stores import ChildSt
+                world.probe("typed-handle-after-untyped-handle")
+                trid = "t-" + rid
+
+                async def typed(b, st):
+                    keep = state_stores.setdefault((b, trid, "untyped"), st.create_state_store(trid))
+                    await keep.get_state()
+                    ts = st.create_state_store(trid, state_type=ChildSt)
+                    cur = await ts.get_state()
+                    await ts.set_state(ChildSt(a=i, extra="t"))
+                    got = await ts.get_state()
+                    return [type(cur).__name__, type(got).__name__, got.model_dump() if hasattr(got, "model_dump") else str(got)]
+                await both(f"typed state store for {trid} while an untyped handle is alive", typed)
             elif op == "tick_get":
                 if tape.draw(2, "stream"):
                     await both(f"stream_ticks({rid})", lambda b, st: _stream(st, rid))
